@@ -20,7 +20,9 @@ RULE = (
     'gets exactly the prescribed hole cards with the prescribed facings in '
     'order, nobody else any; default-argument dealing goes in position order '
     'one card per round; each board gets exactly the prescribed number; each '
-    'live player draws once, discards only held cards and gets back as many '
+    'live player draws once, discards only held cards (every draw decision '
+    'is probed with the whole hand, a held card named twice, other players\' '
+    'cards and an undealt card) and gets back as many '
     'with the same facings; no actor and no betting operation before the '
     'street is completely dealt; the hole-to-board fallback when the cards '
     'cannot cover a street. Street(...) is probed with invalid combinations. '
@@ -36,6 +38,7 @@ MIN_NONTRIVIAL = {'quick': 3000, 'thorough': 30000}
 REQUIRED = ('streets_completed', 'draw_rounds_checked', 'burns_checked',
             'default_dealee_checks', 'explicit_player_deals',
             'chunked_deals', 'fallback_streets', 'folded_player_streets',
+            'discard_probes',
             'multi_board_streets', 'street_validation_probes',
             'mixed_facing_draws')
 
@@ -141,6 +144,30 @@ class DealMonitor(Monitor):
             if s.actor_index is not None:
                 ctx.violate(f'actor {s.actor_index} exposed while street '
                             f'{s.street_index} is still being dealt')
+            if 'stand_pat_or_discard' in avail:
+                self._probe_discards(ctx, s)
+
+    def _probe_discards(self, ctx, s):
+        """A player discards only cards he holds (as many times as he holds
+        them): the draw decision is probed with his own cards, a card twice,
+        a card of another player and an undealt card."""
+        i = s.stander_pat_or_discarder_index
+        held = list(s.hole_cards[i])
+        ctx.counters['discard_probes'] += 1
+        if not s.can_stand_pat_or_discard(tuple(held)):
+            ctx.violate(f'player {i} may not discard his whole hand {held}')
+        if held and all(held):
+            c = held[0]
+            if held.count(c) == 1 and s.can_stand_pat_or_discard((c, c)):
+                ctx.violate(f'player {i} holds {c} once but may discard it '
+                            f'twice (hand {held})')
+        foreign = [c for j in s.player_indices if j != i and s.statuses[j]
+                   for c in s.hole_cards[j] if c and c not in held]
+        foreign += [c for c in s.deck_cards if c not in held][:1]
+        for c in foreign[:3]:
+            if s.can_stand_pat_or_discard((c,)):
+                ctx.violate(f'player {i} may discard {c}, which he does not '
+                            f'hold (hand {held})')
 
     def on_op(self, ctx, s, op):
         kind = type(op).__name__
